@@ -473,19 +473,6 @@ def _proc_inlinable(fn: ast.AST, tail: bool) -> bool:
             return False
         if isinstance(n, (ast.ListComp, ast.SetComp, ast.DictComp, ast.GeneratorExp)):
             pass
-    if not tail:
-        # early returns are fine (the body is wrapped in a one-pass loop and they become `break`),
-        # unless they sit inside a loop of the helper itself
-        def in_loop(node, inside=False):
-            for ch in ast.iter_child_nodes(node):
-                if isinstance(ch, ast.Return) and inside:
-                    return True
-                if in_loop(ch, inside or isinstance(ch, (ast.For, ast.While, ast.AsyncFor))):
-                    return True
-            return False
-
-        if in_loop(fn):
-            return False
     return True
 
 
@@ -589,22 +576,46 @@ def _inline_procedures(tree: ast.Module) -> None:
                         # one-pass loop: `return E` -> `<target> = E; break`
                         tgt_name = tag + "result"
 
-                        class _Ret(ast.NodeTransformer):
-                            def visit_Return(self, r_):
-                                asg_ = ast.Assign(targets=[ast.Name(id=tgt_name, ctx=ast.Store())], value=r_.value if r_.value is not None else ast.Constant(value=None), type_comment=None)
-                                return [ast.copy_location(asg_, r_), ast.copy_location(ast.Break(), r_)]
+                        done_name = tag + "done"
 
-                            def visit_FunctionDef(self, n_):
-                                return n_
+                        def conv(stmts, in_own_loop):
+                            """`return E` -> `<result> = E; <done> = True; break`; after each loop of the helper
+                            itself: `if <done>: break` (leave the enclosing loop as well)."""
+                            out_ = []
+                            for s_ in stmts:
+                                if isinstance(s_, ast.Return):
+                                    out_.append(ast.copy_location(ast.Assign(targets=[ast.Name(id=tgt_name, ctx=ast.Store())], value=s_.value if s_.value is not None else ast.Constant(value=None), type_comment=None), s_))
+                                    out_.append(ast.copy_location(ast.Assign(targets=[ast.Name(id=done_name, ctx=ast.Store())], value=ast.Constant(value=True), type_comment=None), s_))
+                                    out_.append(ast.copy_location(ast.Break(), s_))
+                                    continue
+                                if isinstance(s_, (ast.For, ast.While)):
+                                    has_ret = any(isinstance(x, ast.Return) for x in ast.walk(s_))
+                                    s_.body = conv(s_.body, True)
+                                    s_.orelse = conv(s_.orelse, in_own_loop)
+                                    out_.append(s_)
+                                    if has_ret:
+                                        out_.append(ast.copy_location(ast.If(test=ast.Name(id=done_name, ctx=ast.Load()), body=[ast.Break()], orelse=[]), s_))
+                                    continue
+                                for fld_ in ("body", "orelse", "finalbody"):
+                                    sub_ = getattr(s_, fld_, None)
+                                    if isinstance(sub_, list) and sub_ and isinstance(sub_[0], ast.stmt):
+                                        setattr(s_, fld_, conv(sub_, in_own_loop))
+                                if isinstance(s_, ast.Try):
+                                    for h_ in s_.handlers:
+                                        h_.body = conv(h_.body, in_own_loop)
+                                if isinstance(s_, ast.Match):
+                                    for c_ in s_.cases:
+                                        c_.body = conv(c_.body, in_own_loop)
+                                out_.append(s_)
+                            return out_
 
-                        loop_body = [_Ret().visit(s_) for s_ in body]
-                        flat = []
-                        for x in loop_body:
-                            flat.extend(x if isinstance(x, list) else [x])
+                        flat = conv(body, False)
+                        pre = pre + [ast.copy_location(ast.Assign(targets=[ast.Name(id=done_name, ctx=ast.Store())], value=ast.Constant(value=False), type_comment=None), st)]
                         if not flat or not isinstance(flat[-1], ast.Break):
                             flat.append(ast.copy_location(ast.Assign(targets=[ast.Name(id=tgt_name, ctx=ast.Store())], value=ast.Constant(value=None), type_comment=None), st))
                             flat.append(ast.copy_location(ast.Break(), st))
                         loop = ast.While(test=ast.Constant(value=True), body=flat, orelse=[])
+                        loop._synthetic = True  # the one-pass wrapper of an inlined helper, not a loop of the program
                         out = pre + [ast.copy_location(loop, st)]
                         res_load = ast.Name(id=tgt_name, ctx=ast.Load())
                         if form == "assign":
